@@ -47,6 +47,8 @@ def showVal : Val → String
   | .bool b => if b then "T" else "F"
   | .bytes bs => "b" ++ ".".intercalate (bs.map toString)
   | .recd fs => "r" ++ ";".intercalate (fs.map showDy)
+  | .rat n d => s!"{n}/{d}"
+  | .sqrtRat n d => s!"q{n}/{d}"
   | .inf neg => if neg then "-inf" else "inf"
   | .poison => "POISON"
 
